@@ -108,7 +108,31 @@ def _nontrivial(case):
     return off_after_on
 
 
+def _replay_single(ctx):
+    """--replay file: run the stored history alone on the current tree."""
+    rp = json.load(open(ctx.replay))
+    case = rp["replay"]["case"]
+    binary = vlib.go_build(ctx, "sched")
+    inp, outp = ctx.path("r", "in.jsonl"), ctx.path("r", "out.jsonl")
+    vlib.write_jsonl(inp, [case])
+    r = vlib.run_bin(ctx, binary, ["replay", "-in", inp, "-out", outp, "-work", os.path.dirname(ctx.path("r", "work", "x"))], timeout=300)
+    if r["rc"] != 0:
+        raise Infra("sched replay failed: " + r["stderr"][-2000:])
+    rr = vlib.read_jsonl(outp)[0]
+    ctx.log("replayed %s (level %s, %d steps): %s" % (ctx.replay, case["level"], len(case["h"]), "reproduced " + rr["sig"] if not rr["ok"] else "the history passes on this tree"))
+    ctx.cov["traces_validated_against_impl"] = 1
+    ctx.cov["evaluations"] = rr["steps"]
+    ctx.sample({"operations": [list(x) for x in _hist(case)]})
+    if not rr["ok"]:
+        if rr["sig"] == "INFRA":
+            raise Infra(rr["detail"])
+        ctx.fail(rr["sig"], "level %s, history %s: %s" % (case["level"], _hist(case)[-8:], rr["detail"]), {"case": case, "bad_step": rr.get("bad_step", 0)})
+    vlib.finish(ctx, rule="single stored history replayed on the real code")
+
+
 def check_c11(ctx):
+    if getattr(ctx, "replay", None):
+        _replay_single(ctx)
     q = ctx.quick()
     seed = str(ctx.seed)
     W = 4  # TLC workers per run (several runs in parallel)
@@ -172,16 +196,12 @@ def check_c11(ctx):
                  [(c, "WalkH") for c in res["WalkH"]["prints"]]
     for i, (c, src) in enumerate(hook_cases):
         add("ctrl", i % 2 == 0, c, src)
-    n_mgr = min(len(hook_cases), ctx.pick(150, 2500))
-    n_op = min(len(hook_cases), ctx.pick(120, 1500))
+    n_mgr = min(len(hook_cases), ctx.pick(150, 2000))
+    n_op = min(len(hook_cases), ctx.pick(120, 1000))
     for i, (c, src) in enumerate(rnd.sample(hook_cases, n_mgr)):
         add("manager", i % 2 == 0, c, src)
     for i, (c, src) in enumerate(rnd.sample(hook_cases, n_op)):
         add("operator", i % 2 == 1, c, src)
-    if getattr(ctx, "replay", None):
-        rp = json.load(open(ctx.replay))
-        cases = [rp["replay"]["case"]]
-        ctx.log("replaying the single case of %s" % ctx.replay)
 
     # ---------------- replay on the real code ----------------
     # several harness processes side by side: manager-level histories in NPROC slices, the levels that build hooks in
